@@ -190,6 +190,15 @@ def build_all(prop, log):
     elif built and not thms:
         info["proof_ok"] = False
         info["failing"].append("no theorems found in " + pfile)
+    # 7. thorough tier: independent re-check of the compiled module by leanchecker
+    if built and os.environ.get("VERIF_TIER_EFFECTIVE") == "thorough":
+        t4 = time.time()
+        r = sh(["lake", "env", "leanchecker", mod], cwd=LEAN, timeout=3600)
+        info["leanchecker_rc"] = r.returncode
+        if r.returncode != 0:
+            info["proof_ok"] = False
+            info["failing"].append("leanchecker: " + (r.stdout + r.stderr)[-300:])
+        info["t_leanchecker"] = round(time.time() - t4, 1)
     return info
 
 
@@ -325,6 +334,7 @@ def main():
     else:
         tier = sys.argv[2] if len(sys.argv) > 2 else os.environ.get("VERIF_TIER", "quick")
     seed = int(os.environ.get("VERIF_SEED", "20260926"))
+    os.environ["VERIF_TIER_EFFECTIVE"] = tier
 
     with Lock():
         info = build_all(prop, log)
@@ -369,9 +379,18 @@ def main():
                     wit.append(w["input"])
     lines = wit + lines
     seeds = [seed] if tier == "quick" else [seed + i for i in range(cfg.get("shards", 4))]
-    for s in seeds:
-        lines += gen_lines(prop, s, n // len(seeds), tier)
-    rows = run_cases(lines, log)
+    if len(seeds) == 1:
+        lines += gen_lines(prop, seeds[0], n, tier)
+        rows = run_cases(lines, log)
+    else:
+        # thorough: one shard per seed, generated and executed in parallel (16 cores)
+        from concurrent.futures import ThreadPoolExecutor
+        rows = run_cases(lines, log)
+        def shard(s):
+            return run_cases(gen_lines(prop, s, n // len(seeds), tier), log)
+        with ThreadPoolExecutor(max_workers=min(len(seeds), 12)) as ex:
+            for part in ex.map(shard, seeds):
+                rows += part
     viol, known, ties, notrep, agree = classify(rows, prop, known_tags)
 
     # P failed or tie broken without a failing input: spend the search budget
@@ -493,6 +512,7 @@ def write_evidence(prop, cfg, tier, seed, info, rows, viol, known, ties, notrep,
             "theorems": info.get("theorems", []),
             "axioms_used": info.get("axioms_used", []),
             "proof_ok": info.get("proof_ok", False),
+            "leanchecker_rc": info.get("leanchecker_rc", "not run (quick tier)"),
             "unproved_or_errors": info.get("failing", []),
             "generated_tables": info.get("gen", {}),
             "evaluations": len(rows),
